@@ -805,8 +805,12 @@ func (f *pyFunc) callNative(s *scope, c *Call) pyObject {
 
 // defaultArg returns the default value for an argument, whether it's constant or not.
 func (f *pyFunc) defaultArg(s *scope, i int, arg string) pyObject {
-	if f.constants[i] != nil {
-		return f.constants[i]
+	if c := f.constants[i]; c != nil {
+		if l, ok := c.(pyList); ok {
+			// Lists are mutable; as with a default that isn't constant, every call gets its own.
+			return copyConstantList(l)
+		}
+		return c
 	}
 	// Deliberately does not use Assert since it doesn't get inlined here (weirdly it does
 	// in _many_ other places) and this function is pretty hot.
